@@ -141,6 +141,16 @@ func main() {
 	os.WriteFile(outV, []byte(coq(facts)), 0o644)
 }
 
+// isGraphNode: (a pointer to) the named type Node of a package called graph (internal/graph.Node and the public
+// graph.Node); inside the package itself the type prints without its import path, so the name is compared
+func isGraphNode(t types.Type) bool {
+	if p, ok := t.(*types.Pointer); ok {
+		t = p.Elem()
+	}
+	n, ok := t.(*types.Named)
+	return ok && n.Obj().Name() == "Node" && n.Obj().Pkg() != nil && n.Obj().Pkg().Name() == "graph"
+}
+
 func isMap(t types.Type) bool {
 	if t == nil {
 		return false
@@ -308,7 +318,7 @@ func analyse(fset *token.FileSet, rel string, pkg *types.Package, files []*ast.F
 					}
 				case *ast.SelectorExpr:
 					if x.Sel.Name == "ID" {
-						if s, ok := info.Selections[x]; ok && s.Kind() == types.FieldVal && strings.HasSuffix(strings.TrimPrefix(s.Recv().String(), "*"), "graph.Node") {
+						if s, ok := info.Selections[x]; ok && s.Kind() == types.FieldVal && isGraphNode(s.Recv()) {
 							facts.IDReads = append(facts.IDReads, site(fset, "idread", pkg, fname, fn, x))
 						}
 					}
